@@ -4,6 +4,8 @@ apply it to /repo, confirm (demo fails, upstream suite passes), run the quick ch
 checks), record the outcome in meta.json, revert.  Developer tool; refuses to run when /repo is dirty."""
 import glob, json, os, re, subprocess, sys, time
 HERE = os.path.dirname(os.path.dirname(os.path.abspath(__file__)))
+# target checkout: /repo itself, or a scratch `git worktree` of it (SEED_REPO) so that /repo stays free for other runs
+REPO = os.environ.get('SEED_REPO', '/repo')
 EXTRA = {'C06-2': ['C10'], 'C06-1': ['C14'], 'C11-1': ['C05']}
 
 
@@ -20,28 +22,28 @@ def main():
     for name in names:
         d = os.path.join(HERE, 'seeded', name)
         meta = json.load(open(os.path.join(d, 'meta.json')))
-        if sh('git status --porcelain', cwd='/repo')[1].strip():
-            print('/repo not clean'); sys.exit(2)
-        env = dict(os.environ, PARSO_DIR='/repo')
+        if sh('git status --porcelain', cwd=REPO)[1].strip():
+            print(REPO + ' not clean'); sys.exit(2)
+        env = dict(os.environ, PARSO_DIR=REPO, VERIF_REPO=REPO, PYTHONPATH=REPO + os.pathsep + os.environ.get('PYTHONPATH', ''))
         rc_clean = sh('/venv/bin/python %s/demo.py' % d, env=env, timeout=300)[0]
-        rc, out = sh('git apply %s/patch.diff' % d, cwd='/repo')
+        rc, out = sh('git apply %s/patch.diff' % d, cwd=REPO)
         if rc:
             print(name, 'patch does not apply', out); continue
         try:
             rc_patched = sh('/venv/bin/python %s/demo.py' % d, env=env, timeout=300)[0]
-            suite = sh('/venv/bin/python -m pytest -q -p no:cacheprovider -x 2>&1 | tail -1', cwd='/repo', timeout=900)[1].strip()
+            suite = sh('/venv/bin/python -m pytest -q -p no:cacheprovider -x 2>&1 | tail -1', cwd=REPO, timeout=900, env=env)[1].strip()
             results = {}
             pid = meta['property']
             for chk in [pid] + EXTRA.get(name, []):
                 t0 = time.time()
-                rc, out = sh('./check %s --tier quick' % chk, cwd=HERE, timeout=1500)
+                rc, out = sh('./check %s --tier quick' % chk, cwd=HERE, timeout=1500, env=dict(os.environ, VERIF_REPO=REPO))
                 sigs = sorted(set(re.findall(r'signature: (.*)', out)))
                 results[chk] = {'rc': rc, 'signatures': sigs[:6], 'wall_s': round(time.time() - t0)}
         finally:
-            sh('git checkout -- .', cwd='/repo')
+            sh('git checkout -- .', cwd=REPO)
             sh('rm -rf replays/found', cwd=HERE)
         meta['verified'] = {'demo_exit_clean_tree': rc_clean, 'demo_exit_with_patch': rc_patched, 'upstream_suite_with_patch': suite,
-                            'ran': 'tools/seed_matrix.py: git -C /repo apply patch.diff; demo.py; pytest; ./check <id> --tier quick; git -C /repo checkout -- .'}
+                            'ran': 'tools/seed_matrix.py: git -C <checkout> apply patch.diff; demo.py; pytest; ./check <id> --tier quick (VERIF_REPO=<checkout>); git -C <checkout> checkout -- .   (<checkout> = /repo or a scratch git worktree of it)'}
         caught = [c for c, r in results.items() if r['rc'] == 1]
         meta['detection'] = {'caught_by': ', '.join(caught) or 'MISSED', 'results': results,
                              'note': meta.get('detection', {}).get('note', '')}
